@@ -307,6 +307,8 @@ func runC10(c *Ctx) {
 		}
 		enumerate(c, cfgS)
 	}
+	// the convenience layer of rbac_api.go under auto-save (Properties/C10Rbac.lean): adapter = listed rules after every call
+	rbacApiFamily(c, "c10-")
 	c10RoundTrip(c)
 	c10RoundTripMultiType(c)
 }
